@@ -3599,6 +3599,7 @@ def adminShowPaths : List (Str × List Token × Handler) :=
    (tx "SHOW SERIES", [.SHOW, .SERIES], .parseShowSeriesStatement),
    (tx "SHOW MEASUREMENT EXACT", [.SHOW, .MEASUREMENT, .EXACT], .parseShowMeasurementCardinalityStatement_true),
    (tx "SHOW MEASUREMENT CARDINALITY", [.SHOW, .MEASUREMENT, .CARDINALITY], .parseShowMeasurementCardinalityStatement_false),
+   (tx "SHOW TAG KEYS", [.SHOW, .TAG, .KEYS], .parseShowTagKeysStatement),
    (tx "SHOW TAG KEY", [.SHOW, .TAG, .KEY], .parseShowTagKeyCardinalityStatement),
    (tx "SHOW FIELD KEY", [.SHOW, .FIELD, .KEY], .parseShowFieldKeyCardinalityStatement)]
 
@@ -3782,6 +3783,225 @@ example : wp (runHandler 200 .parseShowTagKeysStatement) (PState.init exTagKeysT
 end
 
 example : (match (runHandler 200 .parseShowTagKeysStatement).run (PState.init exTagKeysText [] []) with
+    | .ok _ => true
+    | .error _ => false) = true := by decide +kernel
+
+/-! ### end to end: `ParseStatement` on the whole printed statement
+
+The family theorems above start after the dispatch keywords. With `parseStatement_print` and the
+obligation `gen_adminShowPaths` they give the property in its own terms: `ParseStatement` on
+`stmt.String()` followed by `k` returns `stmt` and stops at `k`. -/
+
+/-- From the handler's theorem to `ParseStatement` (families with the fuel alternative). -/
+theorem statement_of_handler {Q : Statement → PState → Prop} {E : Fail → Prop} (fuel : Nat) (p : Str × List Token × Handler)
+    (hp : p ∈ adminShowPaths) (s : PState) (rest : Str) (hw : WordEnd rest) (hs : s.Before (p.1 ++ rest))
+    (H : ∀ s1 : PState, s1.Before rest → wp (runHandler fuel p.2.2) s1 Q E) :
+    wp (parseStatement fuel) s Q E := by
+  obtain ⟨hpr, hkw, hpath, hlen⟩ := gen_adminShowPaths p hp
+  rw [hpr] at hs
+  obtain ⟨s1, h1, b1⟩ := parseStatement_print fuel _ _ s [] rest hpath hkw hlen Gap.none hw hs
+  have := H s1 b1
+  unfold wp at this ⊢
+  rw [h1]
+  exact this
+
+theorem wordEnd_opt {x k : Str} (hx : OptText x) (hk : WordEnd k) : WordEnd (x ++ k) := by
+  rcases hx with rfl | ⟨y, rfl⟩
+  · exact hk
+  · exact WordEnd.blank _
+
+/-- **C02 for CREATE DATABASE … WITH** (partial as `createDatabase_with_print_parse_partial`). -/
+theorem createDatabase_with_statement_print_parse_partial (fuel : Nat) (s : PState) (name : Str) (d : Option Int)
+    (n : Option Nat) (sh : Int) (fu pa : Option Int) (rp k : Str)
+    (hex1 : Expressible name) (hex2 : Expressible rp) (hd : DurOK d)
+    (hn : ∀ v, n = some v → 1 ≤ v ∧ (v : Int) ≤ maxInt32) (hsh : 0 ≤ sh ∧ sh ≤ maxInt64) (hfu : DurOK fu) (hpa : DurOK pa)
+    (hfz : fu ≠ some 0) (hpz : pa ≠ some 0)
+    (hany : d.isSome ∨ n.isSome ∨ sh > 0 ∨ fu.isSome ∨ pa.isSome ∨ rp ≠ []) (hk : TokEnd k) (hke : IdentEnd rp k)
+    (hstop : ∀ t ∈ cdbKws, NextNot k t)
+    (hs : s.Before ((Statement.createDatabase name true d (n.map Int.ofNat) rp sh fu pa).print ++ k)) :
+    ∃ s', (parseStatement fuel).run s = .ok (.createDatabase name true d (n.map Int.ofNat) rp sh fu pa, s') ∧
+      s'.Around k := by
+  rw [createDatabase_with_print, List.append_assoc] at hs
+  obtain ⟨hpr, hkw, hpath, hlen⟩ := gen_adminShowPaths (tx "CREATE DATABASE", [.CREATE, .DATABASE],
+    .parseCreateDatabaseStatement) (by simp [adminShowPaths])
+  simp only at hpr hkw hpath hlen
+  rw [hpr] at hs
+  obtain ⟨s1, h1, b1⟩ := parseStatement_print fuel _ _ s [] (cdbText name d n sh fu pa rp ++ k) hpath hkw hlen Gap.none
+    (WordEnd.blank _) hs
+  obtain ⟨s', h2, b2⟩ := createDatabase_with_print_parse_partial fuel s1 name d n sh fu pa rp k hex1 hex2 hd hn hsh hfu hpa
+    hfz hpz hany hk hke hstop b1
+  exact ⟨s', by rw [h1]; exact h2, b2⟩
+
+/-- **C02 for SHOW TAG VALUES** (partial as `showTagValues_print_parse_partial`; measurement names not empty). -/
+theorem showTagValues_statement_print_parse_partial (fuel : Nat) (s : PState) (db : Str) (names : List Str) (op : Token)
+    (key : Expr) (c : Option Expr) (sf : List SortField) (l o : Int) (k : Str)
+    (hexdb : Expressible db) (hex : ∀ m ∈ names, Expressible m) (hne : ∀ m ∈ names, m ≠ [])
+    (hkey : tagKeyOKB op key = true) (hc : CondOK c) (hsf : sortOKB sf = true)
+    (hl : 0 ≤ l ∧ l ≤ maxInt64) (ho : 0 ≤ o ∧ o ≤ maxInt64) (hk : Follow k showStop)
+    (hs : s.Before ((Statement.showTagValues db (names.map nameSrc) op (some key) c sf l o).print ++ k)) :
+    wp (parseStatement fuel) s
+      (fun st s' => st = .showTagValues db (names.map nameSrc) op (some key) c sf l o ∧ RT.Stand s' k) (· = .fuel) := by
+  rw [showTagValues_print_partial db names op key c sf l o hne hsf, List.append_assoc] at hs
+  refine statement_of_handler fuel (tx "SHOW TAG VALUES", [.SHOW, .TAG, .VALUES], .parseShowTagValuesStatement)
+    (by simp [adminShowPaths]) s _ ?_ hs
+    (fun s1 b1 => showTagValues_print_parse_partial fuel s1 db names op key c sf l o k hexdb hex hkey hc hsf hl ho hk b1)
+  exact wordEnd_opt (OptText.append (kwText_onDb db).optText (OptText.append (kwText_from names).optText
+    (Or.inr ⟨_, rfl⟩))) hk.tokEnd.1
+
+/-- **C02 for SHOW TAG KEYS** (partial as `showTagKeys_withKey_print_parse_partial`). -/
+theorem showTagKeys_statement_print_parse_partial (fuel : Nat) (s : PState) (db : Str) (names : List Str) (op : Token)
+    (key : Option Expr) (c : Option Expr) (sf : List SortField) (l o sl so : Int) (k : Str)
+    (hexdb : Expressible db) (hex : ∀ m ∈ names, Expressible m) (hne : ∀ m ∈ names, m ≠ [])
+    (hkey : optKeyOKB op key = true) (hc : CondOK c) (hsf : sortOKB sf = true)
+    (hl : 0 ≤ l ∧ l ≤ maxInt64) (ho : 0 ≤ o ∧ o ≤ maxInt64) (hsl : 0 ≤ sl ∧ sl ≤ maxInt64)
+    (hso : 0 ≤ so ∧ so ≤ maxInt64) (hk : Follow k showStop)
+    (hs : s.Before ((Statement.showTagKeys db (names.map nameSrc) op key c sf l o sl so).print ++ k)) :
+    wp (parseStatement fuel) s
+      (fun st s' => st = .showTagKeys db (names.map nameSrc) op key c sf l o sl so ∧ RT.Stand s' k) (· = .fuel) := by
+  rw [showTagKeys_withKey_print_partial db names op key c sf l o sl so hne hsf, List.append_assoc] at hs
+  refine statement_of_handler fuel (tx "SHOW TAG KEYS", [.SHOW, .TAG, .KEYS], .parseShowTagKeysStatement)
+    (by simp [adminShowPaths]) s _ ?_ hs
+    (fun s1 b1 => showTagKeys_withKey_print_parse_partial fuel s1 db names op key c sf l o sl so k hexdb hex hkey hc hsf hl ho
+      hsl hso hk b1)
+  have hkey' : OptText (optKeyText op key) := by
+    cases key with
+    | none => exact Or.inl rfl
+    | some key => exact Or.inr ⟨_, rfl⟩
+  exact wordEnd_opt (OptText.append (kwText_onDb db).optText (OptText.append (kwText_from names).optText
+    (OptText.append hkey' (OptText.append (kwText_where c).optText (OptText.append (kwText_order sf).optText
+    (OptText.append (kwText_pos _ l).optText (OptText.append (kwText_pos _ o).optText
+    (OptText.append (kwText_pos _ sl).optText (kwText_pos _ so).optText)))))))) hk.tokEnd.1
+
+/-- **C02 for SHOW MEASUREMENTS** (partial as `showMeasurements_full_print_parse_partial`). -/
+theorem showMeasurements_statement_print_parse_partial (fuel : Nat) (s : PState) (db rp : Str) (wdb wrp : Bool)
+    (m : MeasSpec) (c : Option Expr) (sf : List SortField) (l o : Int) (k : Str)
+    (hex1 : Expressible db) (hex2 : Expressible rp) (hon : OnMeasOK db rp wdb wrp) (hm : m.okB = true)
+    (hmn : ∀ n, m = .name n → n ≠ []) (hc : CondOK c) (hsf : sortOKB sf = true)
+    (hl : 0 ≤ l ∧ l ≤ maxInt64) (ho : 0 ≤ o ∧ o ≤ maxInt64) (hk : Follow k showMeasStop)
+    (hs : s.Before ((Statement.showMeasurements db rp wdb wrp m.source c sf l o).print ++ k)) :
+    wp (parseStatement fuel) s
+      (fun st s' => st = .showMeasurements db rp wdb wrp m.source c sf l o ∧ RT.Stand s' k) (· = .fuel) := by
+  rw [showMeasurements_full_print_partial db rp wdb wrp m c sf l o hmn hsf, List.append_assoc] at hs
+  refine statement_of_handler fuel (tx "SHOW MEASUREMENTS", [.SHOW, .MEASUREMENTS], .parseShowMeasurementsStatement)
+    (by simp [adminShowPaths]) s _ ?_ hs
+    (fun s1 b1 => showMeasurements_full_print_parse_partial fuel s1 db rp wdb wrp m c sf l o k hex1 hex2 hon hm hc hsf hl ho
+      hk b1)
+  exact wordEnd_opt (OptText.append (kwText_onMeas db rp wdb wrp).optText (OptText.append (kwText_withMeas m).optText
+    (OptText.append (kwText_where c).optText (OptText.append (kwText_order sf).optText
+    (OptText.append (kwText_pos _ l).optText (kwText_pos _ o).optText))))) hk.tokEnd.1
+
+/-- **C02 for the five cardinality statements** (partial as the family theorems; measurement names not empty). -/
+theorem cardinality_statement_print_parse_partial (fuel : Nat) (s : PState) (db : Str) (ex : Bool) (names : List Str)
+    (op : Token) (key : Expr) (c : Option Expr) (ds : List Expr) (l o : Int) (k : Str)
+    (hexdb : Expressible db) (hex : ∀ m ∈ names, Expressible m) (hne : ∀ m ∈ names, m ≠ [])
+    (hkey : tagKeyOKB op key = true) (hc : CondOK c) (hds : ∀ x ∈ ds, RT.rtOK false x = true)
+    (hl : 0 ≤ l ∧ l ≤ maxInt64) (ho : 0 ≤ o ∧ o ≤ maxInt64) (hk : Follow k cardStop) :
+    (s.Before ((Statement.showSeriesCardinality db ex (names.map nameSrc) c ds l o).print ++ k) →
+      wp (parseStatement fuel) s
+        (fun st s' => st = .showSeriesCardinality db ex (names.map nameSrc) c ds l o ∧ RT.Stand s' k) (· = .fuel)) ∧
+    (s.Before ((Statement.showMeasurementCardinality ex db (names.map nameSrc) c ds l o).print ++ k) →
+      wp (parseStatement fuel) s
+        (fun st s' => st = .showMeasurementCardinality ex db (names.map nameSrc) c ds l o ∧ RT.Stand s' k) (· = .fuel)) ∧
+    (s.Before ((Statement.showTagKeyCardinality db ex (names.map nameSrc) c ds l o).print ++ k) →
+      wp (parseStatement fuel) s
+        (fun st s' => st = .showTagKeyCardinality db ex (names.map nameSrc) c ds l o ∧ RT.Stand s' k) (· = .fuel)) ∧
+    (s.Before ((Statement.showFieldKeyCardinality db ex (names.map nameSrc) c ds l o).print ++ k) →
+      wp (parseStatement fuel) s
+        (fun st s' => st = .showFieldKeyCardinality db ex (names.map nameSrc) c ds l o ∧ RT.Stand s' k) (· = .fuel)) ∧
+    (s.Before ((Statement.showTagValuesCardinality db ex (names.map nameSrc) op (some key) c ds l o).print ++ k) →
+      wp (parseStatement fuel) s
+        (fun st s' => st = .showTagValuesCardinality db ex (names.map nameSrc) op (some key) c ds l o ∧ RT.Stand s' k)
+        (· = .fuel)) := by
+  obtain ⟨p1, p2, p3, p4, p5⟩ := cardinality_print_partial db ex names op key c ds l o hne
+  have hw : ∀ x : Str, WordEnd (exactCardText ex ++ x ++ k) := by
+    intro x
+    cases ex with
+    | true => exact WordEnd.blank _
+    | false => exact WordEnd.blank _
+  refine ⟨?_, ?_, ?_, ?_, ?_⟩
+  · intro hs
+    rw [p1, List.append_assoc] at hs
+    exact statement_of_handler fuel (tx "SHOW SERIES", [.SHOW, .SERIES], .parseShowSeriesStatement)
+      (by simp [adminShowPaths]) s _ (hw _) hs
+      (fun s1 b1 => showSeriesCardinality_print_parse_partial db names c ds l o k ex fuel s1 hexdb hex hc hds hl ho hk b1)
+  · intro hs
+    rw [p2] at hs
+    cases ex with
+    | true =>
+      have e : tx "SHOW MEASUREMENT" ++ (exactCardText true ++ cardText db names c ds l o) ++ k =
+          tx "SHOW MEASUREMENT EXACT" ++ ((' ' :: Token.CARDINALITY.str) ++ cardText db names c ds l o ++ k) := by
+        have e1 : tx "SHOW MEASUREMENT" ++ exactCardText true = tx "SHOW MEASUREMENT EXACT" ++ (' ' :: Token.CARDINALITY.str) := by
+          decide +kernel
+        rw [← List.append_assoc (tx "SHOW MEASUREMENT"), e1]
+        simp only [List.append_assoc]
+      rw [e] at hs
+      exact statement_of_handler fuel (tx "SHOW MEASUREMENT EXACT", [.SHOW, .MEASUREMENT, .EXACT],
+        .parseShowMeasurementCardinalityStatement_true) (by simp [adminShowPaths]) s
+        ((' ' :: Token.CARDINALITY.str) ++ cardText db names c ds l o ++ k) (WordEnd.blank _) hs
+        (fun s1 b1 => showMeasurementCardinality_print_parse_partial db names c ds l o k true fuel s1 hexdb hex hc hds hl ho hk
+          (by simpa only [if_true] using b1))
+    | false =>
+      have e : tx "SHOW MEASUREMENT" ++ (exactCardText false ++ cardText db names c ds l o) ++ k =
+          tx "SHOW MEASUREMENT CARDINALITY" ++ (cardText db names c ds l o ++ k) := by
+        have e1 : tx "SHOW MEASUREMENT" ++ exactCardText false = tx "SHOW MEASUREMENT CARDINALITY" := by decide +kernel
+        rw [← List.append_assoc (tx "SHOW MEASUREMENT"), e1]
+        simp only [List.append_assoc]
+      rw [e] at hs
+      have hwc : WordEnd (cardText db names c ds l o ++ k) :=
+        wordEnd_opt (OptText.append (kwText_onDb db).optText (OptText.append (kwText_from names).optText
+          (OptText.append (kwText_where c).optText (OptText.append (kwText_group ds).optText
+          (OptText.append (kwText_pos _ l).optText (kwText_pos _ o).optText))))) hk.tokEnd.1
+      exact statement_of_handler fuel (tx "SHOW MEASUREMENT CARDINALITY", [.SHOW, .MEASUREMENT, .CARDINALITY],
+        .parseShowMeasurementCardinalityStatement_false) (by simp [adminShowPaths]) s _ hwc hs
+        (fun s1 b1 => showMeasurementCardinality_print_parse_partial db names c ds l o k false fuel s1 hexdb hex hc hds hl ho hk
+          (by simpa only [Bool.false_eq_true, if_false, List.nil_append] using b1))
+  · intro hs
+    rw [p3, List.append_assoc] at hs
+    exact statement_of_handler fuel (tx "SHOW TAG KEY", [.SHOW, .TAG, .KEY], .parseShowTagKeyCardinalityStatement)
+      (by simp [adminShowPaths]) s _ (hw _) hs
+      (fun s1 b1 => (showKeyCardinality_print_parse_partial db names c ds l o k ex fuel s1 hexdb hex hc hds hl ho hk b1).1)
+  · intro hs
+    rw [p4, List.append_assoc] at hs
+    exact statement_of_handler fuel (tx "SHOW FIELD KEY", [.SHOW, .FIELD, .KEY], .parseShowFieldKeyCardinalityStatement)
+      (by simp [adminShowPaths]) s _ (hw _) hs
+      (fun s1 b1 => (showKeyCardinality_print_parse_partial db names c ds l o k ex fuel s1 hexdb hex hc hds hl ho hk b1).2)
+  · intro hs
+    rw [p5, List.append_assoc] at hs
+    exact statement_of_handler fuel (tx "SHOW TAG VALUES", [.SHOW, .TAG, .VALUES], .parseShowTagValuesStatement)
+      (by simp [adminShowPaths]) s _ (hw _) hs
+      (fun s1 b1 => showTagValuesCardinality_print_parse_partial db names c ds l o k ex fuel s1 op key hexdb hex hkey hc hds hl
+        ho hk b1)
+
+/-- Non-vacuity, end to end: `ParseStatement` on the printed statements themselves. -/
+def exTagValuesStmt : Statement :=
+  .showTagValues "my db".toList (exNames.map nameSrc) .IN (some exKeyIn) exCond exSort 10 3
+def exCardStmt : Statement :=
+  .showMeasurementCardinality true "my db".toList (exNames.map nameSrc) exCond exDims 10 3
+
+example : exTagValuesStmt.print = ("SHOW TAG VALUES ON \"my db\" FROM cpu, \"my m\" WITH KEY IN (host, \"my tag\", \"select\") " ++
+      "WHERE host = 'a' AND (x > -1 OR y =~ /^b/) ORDER BY time DESC LIMIT 10 OFFSET 3").toList ∧
+    exCardStmt.print = ("SHOW MEASUREMENT EXACT CARDINALITY ON \"my db\" FROM cpu, \"my m\" " ++
+      "WHERE host = 'a' AND (x > -1 OR y =~ /^b/) GROUP BY host, \"my tag\" LIMIT 10 OFFSET 3").toList := by
+  decide +kernel
+
+section
+attribute [local irreducible] wp
+example : wp (parseStatement 200) (PState.init exTagValuesStmt.print [] [])
+    (fun st s' => st = exTagValuesStmt ∧ RT.Stand s' [eofRune]) (· = .fuel) :=
+  showTagValues_statement_print_parse_partial 200 (PState.init exTagValuesStmt.print [] []) "my db".toList exNames .IN exKeyIn
+    exCond exSort 10 3 [eofRune] (by decide +kernel) (by decide +kernel) (by decide +kernel) (by decide +kernel)
+    (by decide +kernel) (by decide +kernel) (by decide) (by decide) (Follow.eof _ (by decide))
+    (init_before exTagValuesStmt.print (by decide +kernel))
+
+example : wp (parseStatement 200) (PState.init exCardStmt.print [] [])
+    (fun st s' => st = exCardStmt ∧ RT.Stand s' [eofRune]) (· = .fuel) :=
+  (cardinality_statement_print_parse_partial 200 (PState.init exCardStmt.print [] []) "my db".toList true exNames .EQ
+    (.string ['k']) exCond exDims 10 3 [eofRune] (by decide +kernel) (by decide +kernel) (by decide +kernel)
+    (by decide +kernel) (by decide +kernel) (by decide +kernel) (by decide) (by decide) (Follow.eof _ (by decide))).2.1
+    (init_before exCardStmt.print (by decide +kernel))
+end
+
+example : (match (parseStatement 200).run (PState.init exTagValuesStmt.print [] []) with
     | .ok _ => true
     | .error _ => false) = true := by decide +kernel
 
